@@ -184,19 +184,24 @@ def run_session(rng, dev, budget):
     classes = device_classes()
     table = classes[dev].disassemble
 
+    def add_item(it):
+        if it.get('what'):             # a deviation: keep the whole session, so that the replay re-runs it
+            it['session'] = list(M.prologue) + list(M.typed)
+        items.append(it)
+
     def add_status(text, line):
         u = M.m._mpu
         bad = check_status(text, dev, u)
         st = text[-(len(repr(u)) + 2):]
         req = 'repr %s %d %d %d %d %d %d' % (dev, u.pc, u.a, u.x, u.y, u.sp, u.p)
-        items.append(dict(kind='status', line=line, what=bad, model=(req, tohex(st[1:-1]) + ' 1'),
+        add_item(dict(kind='status', line=line, what=bad, model=(req, tohex(st[1:-1]) + ' 1'),
                           key=('status', dev, bclass(u.pc, AW), bclass(u.a, W), bclass(u.x, W), bclass(u.y, W), bclass(u.sp, W),
                                bclass(u.p, W)), nontrivial=True, hist=None))
 
     def run(line):
         kind, val, text = M.run(line, budget)
         if kind != 'ret':
-            items.append(dict(kind='run', line=line, what=None if kind == 'budget' else 'onecmd raised %s' % val, model=None,
+            add_item(dict(kind='run', line=line, what=None if kind == 'budget' else 'onecmd raised %s' % val, model=None,
                               key=('abort',), nontrivial=False))
             return None
         add_status(text, line)
@@ -223,7 +228,7 @@ def run_session(rng, dev, budget):
                 first = t.split('\n')[0]
                 cyc = M.m._mpu.processorCycles
                 ok = first == str(cyc) and re.fullmatch(r'\d+', first) and int(first, 10) == cyc
-                items.append(dict(kind='cycles', line='cycles', what=None if ok else 'cycles printed %r, counter is %d' % (first, cyc),
+                add_item(dict(kind='cycles', line='cycles', what=None if ok else 'cycles printed %r, counter is %d' % (first, cyc),
                                   model=('cyc %d' % cyc, tohex(first)), key=('cycles', dev, len(first)), nontrivial=cyc > 0))
             elif r < 0.65:
                 # mem
@@ -242,7 +247,7 @@ def run_session(rng, dev, budget):
                     break
                 body = t[:-(len(repr(M.m._mpu)) + 2)]
                 bad = check_mem(body, dev, M, start, end)
-                items.append(dict(kind='mem', line=line, what=bad, model=None,
+                add_item(dict(kind='mem', line=line, what=bad, model=None,
                                   key=('mem', dev, M.m._width, n, bclass(vals[0], W)), nontrivial=any(vals)))
             elif r < 0.85:
                 # disassemble
@@ -259,15 +264,34 @@ def run_session(rng, dev, budget):
                 for k, c in enumerate(cells):
                     M.run('fill $%x $%x' % ((start + k) & am, c), budget)
                 end = (start + len(cells) - 1) & am
+                if rng.random() < 0.5:
+                    # labels for some of the operands, from a small pool of names: over a session the same name
+                    # is defined again for another address (and sometimes deleted) -- what `disassemble` shows
+                    # must follow the table as it is now
+                    vals, i = [], 0
+                    while i < len(cells):
+                        mode = table[cells[i]][1]
+                        ln = {'imp': 1, 'acc': 1, 'imm': 2, 'zpg': 2, 'zpx': 2, 'zpy': 2, 'inx': 2, 'iny': 2, 'rel': 2,
+                              'zpi': 2, 'abs': 3, 'abx': 3, 'aby': 3, 'ind': 3, 'iax': 3}.get(mode, 1)
+                        if ln == 2 and mode != 'imm' and i + 1 < len(cells):
+                            b1 = cells[i + 1]
+                            vals.append((start + i + 2 + (b1 - (1 << W) if b1 >> (W - 1) else b1)) & am if mode == 'rel' else b1)
+                        elif ln == 3 and i + 2 < len(cells):
+                            vals.append(cells[i + 1] + (cells[i + 2] << W))
+                        i += ln
+                    for v in rng.sample(vals, min(len(vals), rng.choice([1, 2]))):
+                        M.run('add_label $%x %s' % (v, rng.choice(['entry', 'ptr', 'loop_1'])), budget)
+                    if rng.random() < 0.2:
+                        M.run('delete_label %s' % rng.choice(['entry', 'ptr', 'loop_1']), budget)
                 line = 'disassemble $%x:$%x' % (start, end) if end >= start or rng.random() < 0.5 else 'disassemble $%x' % start
                 kind, val, t = M.run(line, budget)
                 if kind != 'ret':
-                    items.append(dict(kind='run', line=line, what=None, model=None, key=('abort',), nontrivial=False))
+                    add_item(dict(kind='run', line=line, what=None, model=None, key=('abort',), nontrivial=False))
                     break
                 add_status(t, line)
                 body = t[:-(len(repr(M.m._mpu)) + 2)]
                 bad, mitems = check_disasm(body, dev, M, start, end if ':' in line else start, table)
-                items.append(dict(kind='disasm', line=line, what=bad, model=None,
+                add_item(dict(kind='disasm', line=line, what=bad, model=None,
                                   key=('disasm', dev, top_case, len(ops), table[ops[0]][1]), nontrivial=True))
                 items += mitems
             else:
@@ -287,11 +311,11 @@ def run_session(rng, dev, budget):
                     ok = False
                 if not ok:
                     bad = '~ %s printed %r, which do not all denote %d' % (sp, ls, n)
-                items.append(dict(kind='tilde', line='~ ' + sp, what=bad, model=None, key=('tilde', dev, bclass(n, AW), sp[0]),
+                add_item(dict(kind='tilde', line='~ ' + sp, what=bad, model=None, key=('tilde', dev, bclass(n, AW), sp[0]),
                                   nontrivial=n > 0))
                 if len(ls) == 4:
                     for kindf, wdt, txt in (('dec', 0, ls[0][1:]), ('hex', W // 4, ls[1][1:]), ('oct', 4, ls[2]), ('binz', 8, ls[3])):
-                        items.append(dict(kind='tilde-model', line='~ ' + sp, what=None,
+                        add_item(dict(kind='tilde-model', line='~ ' + sp, what=None,
                                           model=('fmt %s %d %d' % (kindf, wdt, n), tohex(txt)), key=None, nontrivial=False))
     finally:
         M.close()
@@ -452,6 +476,7 @@ def _work(spec):
             if res['nfind'][ks] <= 3:
                 res['findings'].append(dict(key=key, what='%s [%s] %r: %s' % (it['kind'], it['dev'], it['line'][:80], it['what']),
                                             replay=dict(device=it['dev'], line=it['line'], detail=it['what'],
+                                                        session=it.get('session'),
                                                         request=it['model'][0] if it['model'] else None)))
         if it['model']:
             mo = replies[ri]
@@ -511,6 +536,39 @@ def explore(ctx):
     ctx.samples = total['samples'][:6]
 
 
+def replay_session(dev, session, kind):
+    """Re-run a recorded session (constructor line, prologue, every typed line) on a fresh real Monitor and
+    re-judge the display of its last line."""
+    install_timer()
+    m = re.search(r"'-m', '([^']+)'", session[0])
+    os.environ['VERIF_NO_PROLOGUE'] = '1'
+    M = Mon(m.group(1) if m else dev)
+    try:
+        text = ''
+        for line in session[1:]:
+            k, v, text = M.run(line, 10.0)
+        last = session[-1]
+        print('session  : %d line(s) re-run; last %r' % (len(session) - 1, last))
+        body = text[:-(len(repr(M.m._mpu)) + 2)]
+        bad = None
+        rng_ = re.search(r'\$([0-9a-f]+)(?::\$([0-9a-f]+))?', last)
+        if kind == 'disasm' and rng_:
+            st = int(rng_.group(1), 16)
+            en = int(rng_.group(2), 16) if rng_.group(2) else st
+            bad, _ = check_disasm(body, dev, M, st, en, device_classes()[dev].disassemble)
+        elif kind == 'mem' and rng_:
+            bad = check_mem(body, dev, M, int(rng_.group(1), 16), int(rng_.group(2) or rng_.group(1), 16))
+        elif kind == 'status':
+            bad = check_status(text, dev, M.m._mpu)
+        else:
+            print('output   : %r' % body[:300])
+            return True
+        print('now      : %s' % (bad or 'the display agrees with the machine state'))
+        return bool(bad)
+    finally:
+        M.close()
+
+
 def replay(ctx, path):
     obj = json.load(open(path))
     f = obj.get('finding')
@@ -522,6 +580,8 @@ def replay(ctx, path):
     print('line     : %r' % rp.get('line'))
     print('detail   : %s' % rp.get('detail'))
     bad = bool(rp.get('detail'))
+    if rp.get('session'):
+        bad = replay_session(rp['device'], rp['session'], (f or {}).get('key', {}).get('kind'))
     if rp.get('request'):
         try:
             mo = run_driver([rp['request']])[0]
